@@ -86,19 +86,24 @@ TRUSTED = [
     "coq/templates/EditSrcProof.v proves them equal to Wiring.cut_op / remove_op for every state whose link and exposure "
     "tables have distinct keys (Python dicts; for the link table this is part of the proved invariant Rep); "
     "harness/translate_wiring.py + WiringSrcProof.v do the same for Solver.connect; (b) by this correspondence run (sampled), "
-    "which also covers add_structure, prune, map_pins, raise_pins and the per-structure methods",
+    "harness/translate_struct.py + StructSrcProof.v for Structure.add_conn, Structure.cut_connections and the registration half "
+    "of Solver.add_structure; (b) by this correspondence run (sampled), which also covers prune, map_pins, raise_pins, "
+    "remove_connections / remove_pin",
     "harness: history generator (its tracker only chooses operations), canonical observation of every table after every call",
 ]
 
 if __name__ == "__main__":
     import translate_edit
     import translate_wiring
+    import translate_struct
     from common import source_obligation
     main("C07", [HistStream(), HubStream(), MultiLinkStream(), ExposeWireStream()],
          source_obligations=[
              source_obligation("EditSrc_C07", translate_edit.translate, "EditSrcProof.v",
                                ["cut_src_is_cut_op", "remove_src_is_remove_op"]),
-             source_obligation("WiringSrc_C07", translate_wiring.translate, "WiringSrcProof.v", ["connect_src_is_step"])],
+             source_obligation("WiringSrc_C07", translate_wiring.translate, "WiringSrcProof.v", ["connect_src_is_step"]),
+             source_obligation("StructSrc_C07", translate_struct.translate, "StructSrcProof.v",
+                               ["add_conn_src_is_add_conn", "cut_connections_src_is_model", "add_structure_src_is_step_add"])],
          level_text="props/C07.v: the invariant relating the solver's tables (connections, connections_list, free_pins) to the "
                     "present structures is preserved by every operation, hence holds after every history; free pins are exactly "
                     "the unconnected pins of the remaining components. The tie replays random add/connect/cut/remove/re-add/"
